@@ -28,6 +28,10 @@ var malTables = []malTable{
 
 func (t *table) alphabet() []tok {
 	a := []tok{{k: kIdent, s: "a"}, {k: kNum, s: "1"}}
+	// an identifier spelled like the table's first binary operator, written as quoted identifier: an operand
+	if t.quotedOp {
+		a = append(a, tok{k: kIdent, s: "'" + t.Bin[0] + "'"})
+	}
 	for _, p := range []string{"(", ")", "[", "]", ".", ",", ":"} {
 		a = append(a, tok{k: kPunct, s: p})
 	}
@@ -113,6 +117,7 @@ func runMalformed(ctx *bex.Ctx) {
 			break
 		}
 		t := newTable(mt.bin, mt.un, mt.alias)
+		t.quotedOp = ti == 0 || (!ctx.Quick() && ti == 2)
 		c := &checker{ctx: ctx, t: t, p: buildParser(t)}
 		alpha := t.alphabet()
 		seen := map[uint64]struct{}{}
